@@ -644,9 +644,10 @@ func writeReplay(verifDir, prop string, v *Violation) string {
 						rd.Val = c.bi.String()
 					} else if strings.Contains(d.Name, "#") && d.Bits > 0 {
 						// signedness: stored as signed decimal of the width unless uint64 label
-						rd.Val = strconv.FormatInt(sext(c.u, c.sort.W), 10)
-						if c.sort.W == 64 && int64(c.u) < 0 {
+						if d.Unsigned {
 							rd.Val = strconv.FormatUint(c.u, 10)
+						} else {
+							rd.Val = strconv.FormatInt(sext(c.u, c.sort.W), 10)
 						}
 					}
 				} else {
